@@ -10,6 +10,7 @@ import OFV.Spec.C04
 import OFV.Proofs.C04Term
 import OFV.Proofs.C04Sum
 import OFV.Proofs.C04OneBody
+import OFV.Proofs.C04TwoBodyAll
 
 namespace OFV.C04
 open OFV OFV.Spec OFV.Model OFV.Model.C04 OFV.Sem
@@ -151,6 +152,19 @@ theorem jw_one_body_sound (tol : Rat) (p q : Nat) (c : GQ) (hok : jwOneBodyOk to
       = GV.coeff (applyOp .fermion (Spec.C04.oneBodyOp p q c) [m]) [x] :=
   jwOneBody_sound tol p q c hok m x
 
+/-- **`jordan_wigner_two_body` is sound for ALL `p, q, r, s` and all complex `c`**: every coincidence
+pattern (`p = q` or `r = s`: zero; two, three or four distinct indices) and every relative order of the
+indices (all 24 orderings of four distinct indices, with the sign tables `XYXX, YXXX, YYXY, YYYX` /
+`XXYY, YYXX` and the `(p > q) xor (r > s)` flip; the four placements of the repeated index with their
+conjugations).  The returned strings act on every basis state like `c a†_p a†_q a_r a_s + h.c.`
+(counted once when `{p, q} = {r, s}`), on every exact run (`jwTwoBodyOk`, evaluated by the driver on
+every generated input). -/
+theorem jw_two_body_sound (tol : Rat) (p q r s : Nat) (c : GQ) (hok : jwTwoBodyOk tol p q r s c = true)
+    (m x : Nat) :
+    GV.coeff (applyOp .qubit (jwTwoBody tol p q r s c) [m]) [x]
+      = GV.coeff (applyOp .fermion (Spec.C04.twoBodyOp p q r s c) [m]) [x] :=
+  jwTwoBody_sound tol p q r s c hok m x
+
 /-! ### non-vacuity -/
 
 /-- the threshold the driver runs with satisfies the hypothesis of the theorems -/
@@ -174,6 +188,13 @@ a purely imaginary one (two strings get coefficient 0 and are dropped exactly), 
 example : jwOneBodyOk Generated.eqTolerance 5 2 ⟨mkRat 3 4, -2⟩ = true
     ∧ jwOneBodyOk Generated.eqTolerance 0 3 ⟨0, mkRat 1 8⟩ = true
     ∧ jwOneBodyOk Generated.eqTolerance 4 4 ⟨-1, 0⟩ = true := by
+  decide +kernel
+
+/-- exact-regime hypothesis of `jw_two_body_sound` on concrete inputs: four distinct indices out of
+order with a complex coefficient, a repeated index lying between the other two, and the diagonal -/
+example : jwTwoBodyOk Generated.eqTolerance 4 1 0 3 ⟨mkRat 3 4, -2⟩ = true
+    ∧ jwTwoBodyOk Generated.eqTolerance 2 5 0 2 ⟨0, mkRat 1 8⟩ = true
+    ∧ jwTwoBodyOk Generated.eqTolerance 3 1 1 3 ⟨-1, 0⟩ = true := by
   decide +kernel
 
 end OFV.C04
